@@ -190,6 +190,10 @@ def cases(tier, seed):
                  ["dense", 2, 2, F8]]
         for t in depth1(pool3, rich=True):
             add(t, RHS_BASIC, "d3:")
+    # seeded random trees of depth <= 3 from the whole grammar (8 fixed samples, selected by VERIF_SEED mod 8)
+    from .common import random_trees
+    for t in random_trees(1000 + seed % 8, 60 if tier == "quick" else 3000):
+        add(t, RHS_BASIC if tier == "quick" else RHS_BASIC + [["col2", C8]], "r:")
     # de-duplicate ids
     seen = set()
     uniq = []
@@ -203,6 +207,7 @@ def cases(tier, seed):
 BOUNDS = dict(
     trees="every leaf kind x {f32,f64,c64,c128} x sizes 1..3 (+1x9 wide); all depth-1 composites over a 15-leaf pool; "
     "multi-factor Kronecker/KronSum/BlockDiag/Concatenated; depth-2 composites over an 11-tree pool (half per seed in quick, "
-    "all in thorough); depth 3 over a reduced alphabet in thorough",
+    "all in thorough); depth 3 over a reduced alphabet in thorough; 60 (quick) / 3000 (thorough) seeded random trees of depth <= 3 over the whole "
+    "grammar with dimensions <= 6 (one of 8 fixed samples, chosen by VERIF_SEED mod 8)",
     rhs="1-D, n x 1, n x 2; dtypes float32/float64/complex64/complex128",
     values="all payload entries and right-hand sides symbolic (unbounded reals / complex)")
